@@ -47,12 +47,12 @@ func c13Gen(seed uint64, run int, tier string) *Case {
 		c.Stratum = "server-handshake"
 		c.Cfg["handshake"] = 1
 		c.Cfg["msize"] = int64(r.Pick(256, 1024, 8192))
-		c.Cfg["cmsize"] = int64(r.Pick(200, 256, 1024, 8192))
+		c.Cfg["cmsize"] = int64(r.Pick(64, 100, 200, 256, 1024, 8192))
 		c.Cfg["dotu"], c.Cfg["sdotu"] = int64(r.Intn(2)), 1
 		c.Cfg["maxpend"] = int64(r.Pick(0, 2, 64))
 		c.Cfg["delivery"] = int64(r.Pick(1, 2, 2))
 		c.Cfg["split"] = int64(run / 8 * 7)
-		c.Cfg["nmsg"] = int64(r.Range(1, 6))
+		c.Cfg["nmsg"] = int64(r.Pick(r.Range(1, 6), r.Range(1, 6), r.Range(30, 90))) // now and then far more bytes than 8 x the msize asked for
 		return c
 	}
 	ms := r.Pick(96, 128, 256, 1024, 4096)
@@ -224,6 +224,26 @@ func c13Exec(x *Ctx) {
 		if len(held) == 0 {
 			break
 		}
+		if !fifo && len(x.Res.Viol) == 0 {
+			// whatever the segmentation, a request parked in the implementation holds up nothing but itself
+			// (the messages carry distinct tags here): everything else that was written has been answered
+			for i, e := range exps {
+				if e.s == nil || e.s.Reply != nil {
+					continue
+				}
+				parked := false
+				for _, h := range held {
+					if h.Tag == e.m.Tag {
+						parked = true
+					}
+				}
+				if !parked {
+					x.Violate("s6-held-up", "message %d (%s) has no reply at quiescence although it is not one of the %d requests parked in the implementation: where a read ended decided whether it is served", i, e.m, len(held))
+					break
+				}
+			}
+			x.Probe("quiescence-with-requests-parked")
+		}
 		held[x.S.Choose(len(held))].Released = true
 	}
 	if !setupOK {
@@ -361,6 +381,16 @@ func c13Handshake(x *Ctx) {
 		default:
 			msgs = append(msgs, &Msg{Type: Tstat, Tag: tag, Fid: 7777})
 			kinds = append(kinds, "unknown-fid")
+		}
+	}
+	agreed := int(c.cfg("msize"))
+	if cm := int(c.cfg("cmsize")); cm < agreed {
+		agreed = cm
+	}
+	for i := 1; i < len(msgs); i++ {
+		if len(Encode(msgs[i], dotu)) > agreed {
+			msgs[i] = &Msg{Type: Tstat, Tag: msgs[i].Tag, Fid: 7777} // would not fit the msize being agreed
+			kinds[i] = "unknown-fid"
 		}
 	}
 	var sent []*Sent
